@@ -287,6 +287,7 @@ def reader_by_interpretation(facts, fs, layout):
     def one(choices):
         it = Interp(facts, Order({}), opaque_call=h)
         it.bv_arith = arith
+        it.fallible_narrowing = True
         it.choices = list(choices)
         r = it.run_body(fs, [('ref', Cell(('str', 'input')))])
         return it.oracle_log, (r, list(it.trace))
@@ -298,6 +299,9 @@ def reader_by_interpretation(facts, fs, layout):
             raise Unmodelled('from_str has a panicking path')
         v, tr = r
         for x in tr:
+            if isinstance(x, tuple) and x[0] == 'bv-narrow' and len(x[1]) == 1 and v[0] == 'adt' and v[1] == 'core::result::Result' and v[2] == 0:
+                # a piece parsed wide and narrowed with a checked conversion: bounded by the narrow type
+                bounds.setdefault(x[1][0], set()).add((1 << x[2]) - 1)
             if isinstance(x, tuple) and x[0] == 'bv-cmp' and x[1] in FL:
                 op_, l_, r_ = x[1], x[2], x[3]
                 if l_[0] == 'const' and r_[0] == 'field':
